@@ -73,6 +73,8 @@ def gen_plan(rng, tier: str, idx: int) -> dict:
         # F2: an undefined (NaN) target density beyond a radius; the Metropolis-Hastings kernels
         # report such a transition with acceptance probability 0 and error code 90, and that
         # reported probability is what dual averaging has to be fed with
+        # the user's dual-averaging constants (half of the runs keep the defaults)
+        plan["engine"]["da"] = None if rng.random() < 0.5 else {"da_gamma": rng.choice([0.05, 0.1, 0.5]), "da_kappa": rng.choice([0.75, 0.6, 0.9]), "da_t0": rng.choice([10, 3, 25, 100])}
         nb = rng.choice([None, None, 2.0, 3.5])
         plan["engine"]["nan_beyond"] = nb if plan["engine"]["kernel"] in ("rw", "mh_tuned", "mh_fixed", "iwls") else None
     return plan
@@ -191,6 +193,7 @@ def build_engine(e):
 
     model = gs.DictInterface(lp)
     kw = {} if e["target"] is None else {"da_target_accept": e["target"]}
+    kw.update(e.get("da") or {})
     k = e["kernel"]
     if k == "rw":
         ker = gs.RWKernel(["x"], initial_step_size=e["eps0"], **kw)
@@ -228,6 +231,10 @@ def check_engine(e, V, log, counters):
     codes = np.asarray(infos.error_code)
     counters["probe.nan_density_transitions"] = int((codes == 90).sum())
     const = (ker.da_target_accept, ker.da_gamma, ker.da_kappa, ker.da_t0)
+    if e.get("da"):
+        # the constants the user configured, not whatever the kernel object stores
+        const = (e["target"] if e["target"] is not None else ker.da_target_accept, e["da"]["da_gamma"], e["da"]["da_kappa"], e["da"]["da_t0"])
+        counters["probe.user_da_constants"] = 1
     tunes = e["kernel"] != "mh_fixed"
     C = e["chains"]
     idx = 1
